@@ -60,6 +60,9 @@ SEEDS = [
     {"name": "wide-nc", "platform": "ios", "kwargs": {}, "short_only": True,
      "lines": ["remark = WIDE", "permit ip 10.0.0.0 1.255.255.0 any", "remark = REST", "permit tcp host 10.0.0.5 any eq 22",
                "deny ip any any"]},
+    {"name": "handmade-groups", "platform": "ios", "kwargs": {}, "handmade": [2, 1, 3],
+     "lines": ["10 remark block one", "20 permit tcp any host 10.1.1.1 eq 80", "30 permit udp any any eq 53",
+               "40 remark block two", "50 permit tcp 10.2.0.0 0.0.255.255 any eq 22", "60 deny tcp any any eq 22", "70 deny ip any any"]},
     {"name": "numbered-dups", "platform": "ios", "kwargs": {},
      "lines": ["10 permit icmp any any", "20 permit tcp any any eq 25", "20 permit tcp any any eq 25", "30 remark dup", "30 remark dup",
                "40 permit icmp any any", "50 deny ip 10.0.0.0 0.255.255.255 any"]},
@@ -140,6 +143,23 @@ def build(seed: dict):
     text = grammar.acl_header(seed["platform"], "C17") + "\n" + "\n".join("  " + ln for ln in seed["lines"])
     acl = Acl(text, platform=seed["platform"], max_ncwb=20, **seed.get("kwargs", {}))
     attach_members(acl, seed.get("members", {}))
+    if seed.get("handmade"):
+        # hand-made AceGroups in an ACL without group_by (runs of items wrapped through the list methods)
+        from cisco_acl import AceGroup  # pylint: disable=import-outside-toplevel
+
+        items = list(acl.items)
+        new, pos = [], 0
+        for size in seed["handmade"]:
+            chunk = items[pos:pos + size]
+            pos += size
+            if not chunk:
+                break
+            if size > 1:
+                new.append(AceGroup(items=chunk, platform=acl.platform, port_nr=acl.port_nr, protocol_nr=acl.protocol_nr))
+            else:
+                new.extend(chunk)
+        new.extend(items[pos:])
+        acl.items[:] = new
     return acl
 
 
@@ -178,7 +198,8 @@ def run_sequence(ctx, seed: dict, ops: list, digests: dict) -> None:
             if op == "platform":
                 target = "nxos" if acl.platform == "ios" else "ios"
                 pred = model.platform(target)
-                acl.platform = target
+                spellings = {"nxos": ["nxos", "cnx", "cisco_nxos"], "ios": ["ios", "cisco_ios"]}[target]
+                acl.platform = spellings[(step + len(ops)) % len(spellings)]  # every documented spelling of the argument
             elif op in ("port_nr", "protocol_nr"):
                 pred = model.switch(op)
                 setattr(acl, op, not getattr(acl, op))
@@ -365,8 +386,11 @@ def gen_seed(rng) -> dict:
                 desc[side] = " ".join(desc[side].split()[:2])
         descs.append(desc)
         lines.append(sc.compose(desc, platform, seq=seq))
-    return {"name": f"gen{rng.randrange(1 << 30)}", "platform": platform, "kwargs": {"group_by": heading} if heading else {},
+    seed = {"name": f"gen{rng.randrange(1 << 30)}", "platform": platform, "kwargs": {"group_by": heading} if heading else {},
             "lines": lines}
+    if not heading and rng.random() < 0.3:
+        seed["handmade"] = [rng.choice([1, 2, 2, 3]) for _ in range(3)]
+    return seed
 
 
 def run(ctx) -> None:
